@@ -93,7 +93,10 @@ def guard(owner, method, what, cls=None, fix=None):
     w = {"owner": owner, "method": method}
     if cls:
         w["cls"] = cls
-    add(what, {"kind": "guard_static", "clause": "guard-not-first", "where": w}, fix)
+    # the static case and the dynamic p_apply cases both carry (owner, method): one matcher covers the
+    # fact read from the source and its confirmation on the real object
+    add(what, {"kinds": ["guard_static", "p_apply"],
+               "clause_re": r"^(guard-not-first: |not-fitted-error: .*: (AttributeError|TypeError)$)", "where": w}, fix)
 
 
 guard("_SktimeForecaster", "update_predict", "_SktimeForecaster.update_predict has no check_is_fitted(): "
@@ -108,12 +111,12 @@ guard("Detrender", "update", "Detrender.update has no check_is_fitted(): before 
 guard("BaseSupervisedLearningStrategy", "predict", "benchmarking strategies: predict before fit fails with "
       "AttributeError on self._task.features (no fitted state, no guard)")
 for c in ("ProximityForest", "ProximityStump", "ProximityTree"):
-    guard(c, "predict_proba", "%s.predict_proba has no check_is_fitted() (static only: not importable here)" % c)
+    guard(c, "predict_proba", "%s.predict_proba has no check_is_fitted() (confirmed on the real class: TypeError / AttributeError before fit)" % c)
 guard("RotationForest", "predict", "contrib RotationForest.predict -> predict_proba uses fitted state without a guard (static only)")
 guard("RotationForest", "predict_proba", "contrib RotationForest.predict_proba uses fitted state without a guard (static only)")
-guard("ShapeDTW", "predict", "ShapeDTW.predict has no check_is_fitted(): _preprocess reads self.sw, set only by fit (static only)")
-guard("ShapeDTW", "predict_proba", "ShapeDTW.predict_proba has no check_is_fitted(): _preprocess reads self.sw (static only)")
-guard("BaseClassifier", "score", "ShapeDTW.score inherits the unguarded ShapeDTW.predict (static only)", cls="ShapeDTW")
+guard("ShapeDTW", "predict", "ShapeDTW.predict has no check_is_fitted(): _preprocess reads self.sw, set only by fit (confirmed: AttributeError before fit)")
+guard("ShapeDTW", "predict_proba", "ShapeDTW.predict_proba has no check_is_fitted(): _preprocess reads self.sw (confirmed: AttributeError before fit)")
+guard("BaseClassifier", "score", "ShapeDTW.score inherits the unguarded ShapeDTW.predict (confirmed: AttributeError before fit)", cls="ShapeDTW")
 guard("_CachedTransformer", "transform", "_CachedTransformer.transform works (returns a result) without fit: "
       "no fitted-state guard (static only)")
 
@@ -169,6 +172,27 @@ add("ColumnEnsembleClassifier.set_params(estimators=L, <component or component__
     # aliasing (nested keys act on the objects listed BEFORE `estimators` was reassigned)
     {"kind": "tree_set", "clause_re": "^(nested-set|valid-set-rejected|unknown-name|correspondence)",
      "where": {"colens_list_with_other": True, "tree.cls": "ColumnEnsembleClassifier"}}, "notes/C04-fix-9.diff")
+
+# ---------------------------------------------------------------- dynamic confirmations on the
+# distance-based classes made importable by props/c04.py driver_init (added last: ids above are stable)
+add("ProximityStump.get_params() raises AttributeError ('get_exemplars' is stored as `pick_exemplars`): dynamic "
+    "confirmation of F-C04-21",
+    {"kind": "p_params", "clause_re": r"^get-params-fails: ProximityStump\.get_params\(\) raised:AttributeError$",
+     "where": {"cls": "ProximityStump", "aspect": "get"}})
+add("clone(fitted ProximityStump) raises AttributeError (get_params fails, F-C04-21): the clone phase of the "
+    "apply-type cases cannot be run for this class",
+    {"kind": "p_apply", "clause_re": r"^fit-for-clone: ProximityStump: clone-failed: AttributeError$",
+     "where": {"cls": "ProximityStump", "phase": "clone"}})
+add("clone(fitted ProximityTree) raises RuntimeError: fit has overwritten distance_measure / get_distance_measure "
+    "(F-C04-65, 66) and the constructor stores distance_measure=None (F-C04-22), so scikit-learn's clone refuses it",
+    {"kind": "p_apply", "clause_re": r"^fit-for-clone: ProximityTree: clone-failed: RuntimeError$",
+     "where": {"cls": "ProximityTree", "phase": "clone"}})
+add("ProximityForest.fit rebinds distance_measure, get_distance_measure, random_state (dynamic confirmation of F-C04-59..61)",
+    {"kind": "p_fit", "clause_re": r"^fit-changes-params: ProximityForest\.fit rebinds \['distance_measure', 'get_distance_measure', 'random_state'\]$",
+     "where": {"cls": "ProximityForest"}})
+add("ProximityTree.fit rebinds distance_measure, find_stump, get_distance_measure, random_state (dynamic confirmation of F-C04-65..68)",
+    {"kind": "p_fit", "clause_re": r"^fit-changes-params: ProximityTree\.fit rebinds \['distance_measure', 'find_stump', 'get_distance_measure', 'random_state'\]$",
+     "where": {"cls": "ProximityTree"}})
 
 json.dump(F, open("/verif/findings.d/C04.json", "w"), indent=1)
 print(len(F), "entries,", sum(1 for f in F if f["status"] == "open"), "open,",
